@@ -41,7 +41,12 @@ class TeeSys:
         self.trace = []
         self.current = 0
         self.items = [Item(1, p + 1, 1) for p in range(srclen)]
+        # one of the items is the object None (nothing may be read into that); it cannot be weakly referenced
+        self.none_pos = 2 if srclen >= 2 else 0
         self.refs = [weakref.ref(x) for x in self.items]
+        if self.none_pos:
+            self.items[self.none_pos - 1] = None
+            self.refs[self.none_pos - 1] = lambda: None
         self.pos = 0
         self.inside = set()
         self.src_closes = 0
@@ -136,7 +141,7 @@ class TeeSys:
                 self.cs[c] = "foreign"
         elif r[0] == "done":
             v = r[1]
-            x = v.p if isinstance(v, Item) else -1
+            x = v.p if isinstance(v, Item) else self.none_pos if (v is None and self.none_pos) else -1
             self.recv[c].append(x)
             self.ev(e="recv", c=c, x=x)
             self.cs[c] = "idle"
@@ -251,7 +256,7 @@ class TeeSys:
                 live = self.tee._buffers
                 mine = [r() for r in self.bufs]
                 p["reg"] = [m is not None and any(b is m for b in live) for m in mine]
-                p["buf"] = [[x.p for x in m] if r else [] for m, r in zip(mine, p["reg"])]
+                p["buf"] = [[(x.p if x is not None else self.none_pos) for x in m] if r else [] for m, r in zip(mine, p["reg"])]
                 del mine
             except AttributeError:
                 pass
